@@ -1072,9 +1072,11 @@ def _check_direction_routing(ctx):
 def _check_registry(ctx):
     """qvalues_from_scores(..., 'tdc') means tdc(scores, targets, desc=True)"""
     prog = ctx.prog
-    q = "mokapot.qvalues.QVALUE_ALGORITHM['tdc']"
-    ctx.require(q in prog.funcs, f"registry entry {q} not found")
-    f = prog.funcs[q]
+    from ..core import registry_entries
+    reg = registry_entries(prog, "qvalues", "QVALUE_ALGORITHM")
+    ctx.require("tdc" in reg, "registry entry QVALUE_ALGORITHM['tdc'] not "
+                "found")
+    f = reg["tdc"]
     du = DefUse(prog, f)
     T = Terms(du)
     (node, t), = T.returns()
